@@ -2,7 +2,8 @@
    summation binder and a let binder, as an algebra for [eval] of Sem/Algebra.v; a semantics of rewrite
    PATTERNS (pattern variables, binders, the substitution form b[(var $x) := t]) in that algebra; the pool
    FPPOOL of rewrite rules, as the texts handed to `Rewrite::new` / `Rewrite::new_if` (FPPOOL_text, the same
-   list as FPPOOL in harness/src/eg3.rs) and as patterns (FPPOOL); and named terms of the arithmetic
+   list as FPPOOL in harness/src/eg3.rs) and as patterns (FPPOOL), a rule's condition being a tree over
+   slot_free_in built with the library's and / or / not; and named terms of the arithmetic
    fragment with instantiation of patterns.  Definitions only; the facts are in Sem/FpFacts.v. *)
 From SE Require Export Sem.Algebra.
 From SE Require Import Parse.Parser Lang.LangMachine.
@@ -74,7 +75,16 @@ Fixpoint peval (p : N) (rho : valuation) (env : fenv) (t : fpat) : N :=
   | FSub b x t => peval p rho (upd N env x (peval p rho env t)) b
   end.
 
-Record frule := { fr_lhs : fpat; fr_rhs : fpat; fr_cond : option (slot * text) }.
+(* the condition of a rule: a tree over slot_free_in(slot, var) built with the library's combinators
+   and / or / not (src/rewrite/mod.rs); FCTrue is the condition of Rewrite::new *)
+Inductive fcond :=
+| FCTrue
+| FCFree (x : slot) (v : text)        (* slot_free_in(x, v) *)
+| FCAnd (a b : fcond)                 (* and(a, b) *)
+| FCOr (a b : fcond)                  (* or(a, b) *)
+| FCNot (a : fcond).                  (* not(a) *)
+
+Record frule := { fr_lhs : fpat; fr_rhs : fpat; fr_cond : fcond }.
 
 (* slot names written in a pattern *)
 Fixpoint pslots (t : fpat) : list slot :=
@@ -111,12 +121,26 @@ Definition fresh_ok (r : frule) (rho : valuation) : Prop :=
   forall x, In x (pslots (fr_rhs r)) -> ~ In x (pslots (fr_lhs r)) ->
   forall v, In v (pvars (fr_lhs r) ++ pvars (fr_rhs r)) -> indep rho v x.
 
-(* slot_free_in(x, v) *)
-Definition cond_ok (r : frule) (rho : valuation) : Prop :=
-  match fr_cond r with
-  | None => True
-  | Some (x, v) => indep rho v x
+(* What the truth value the implementation computes for a condition guarantees about the valuation.
+   The implementation's slot_free_in(x, v) is the SYNTACTIC test "x is not among the slots of the class
+   matched by ?v".  If it is true the value of ?v does not depend on x; if it is false NOTHING follows (a
+   term may mention a slot its value does not depend on).  [cond_sem true c]: the weakest fact guaranteed
+   when the implementation evaluates c to true; [cond_sem false c]: ... to false.  and / or / not act on
+   these as usual (not swaps the two readings), so a `not` directly above a slot_free_in contributes
+   nothing, whereas not(or(not(..), not(..))) guarantees both independences. *)
+Fixpoint cond_sem (pos : bool) (c : fcond) (rho : valuation) : Prop :=
+  match c with
+  | FCTrue => if pos then True else False
+  | FCFree x v => if pos then indep rho v x else True
+  | FCAnd a b => if pos then cond_sem true a rho /\ cond_sem true b rho
+                 else cond_sem false a rho \/ cond_sem false b rho
+  | FCOr a b => if pos then cond_sem true a rho \/ cond_sem true b rho
+                else cond_sem false a rho /\ cond_sem false b rho
+  | FCNot a => cond_sem (negb pos) a rho
   end.
+
+(* the rule's condition was evaluated to true *)
+Definition cond_ok (r : frule) (rho : valuation) : Prop := cond_sem true (fr_cond r) rho.
 
 Definition rule_valid (p : N) (r : frule) : Prop :=
   forall rho, in_range p rho -> fresh_ok r rho -> cond_ok r rho ->
@@ -125,31 +149,52 @@ Definition rule_valid (p : N) (r : frule) : Prop :=
 (* ------------------------------------------------------------------ *)
 (* the pool: texts ... *)
 
-Definition FPPOOL_text : list (string * string * option (string * string)) :=
-  [ (* 0 *) ("(add ?a ?b)", "(add ?b ?a)", None);
-    (* 1 *) ("(mul ?a ?b)", "(mul ?b ?a)", None);
-    (* 2 *) ("(add (add ?a ?b) ?c)", "(add ?a (add ?b ?c))", None);
-    (* 3 *) ("(mul (mul ?a ?b) ?c)", "(mul ?a (mul ?b ?c))", None);
-    (* 4 *) ("(mul ?a (add ?b ?c))", "(add (mul ?a ?b) (mul ?a ?c))", None);
-    (* 5 *) ("(add ?a 0)", "?a", None);
-    (* 6 *) ("(mul ?a 1)", "?a", None);
-    (* 7 *) ("(mul ?a 0)", "0", None);
-    (* 8 *) ("(sum $1 (add ?a ?b))", "(add (sum $1 ?a) (sum $1 ?b))", None);
-    (* 9 *) ("(sum $1 (mul ?a ?b))", "(mul ?a (sum $1 ?b))", Some ("1", "a"));
-    (* 10 *) ("(sum $1 (sum $2 ?a))", "(sum $2 (sum $1 ?a))", None);
-    (* 11 *) ("(let $1 ?b ?t)", "?b[(var $1) := ?t]", None);
-    (* 12 *) ("(sum $1 ?a)", "(sum $2 (let $1 ?a (var $2)))", None);
-    (* 13 *) ("(let $1 (var $1) ?t)", "?t", None);
-    (* 14 *) ("(let $1 ?b ?t)", "?b", Some ("1", "b"));
-    (* 15 *) ("(sum $1 ?a)", "0", Some ("1", "a"));
-    (* 16 *) ("(add (mul ?a ?b) (mul ?a ?c))", "(mul ?a (add ?b ?c))", None);
-    (* 17 *) ("(let $1 (add ?a ?b) ?t)", "(add (let $1 ?a ?t) (let $1 ?b ?t))", None);
-    (* 18 *) ("(let $1 ?b ?t)", "(let $2 (let $1 ?b (var $2)) ?t)", None);
-    (* 19 *) ("(let $1 (mul ?a ?b) ?t)", "(mul (let $1 ?a ?t) (let $1 ?b ?t))", None);
-    (* 20 *) ("(let $1 (sum $2 ?b) ?t)", "(sum $2 (let $1 ?b ?t))", Some ("2", "t"));
-    (* 21 *) ("(add ?a ?a)", "(mul 2 ?a)", None);
-    (* 22 *) ("(mul ?a (sum $1 ?b))", "(sum $1 (mul ?a ?b))", Some ("1", "a"));
-    (* 23 *) ("(let $1 ?b (let $2 ?c ?t))", "(let $2 (let $1 ?b ?c) ?t)", Some ("2", "b")) ]%string.
+(* the condition as handed to the library: slot and variable names as texts *)
+Inductive ctext :=
+| CTNone
+| CTFree (s v : string)
+| CTAnd (a b : ctext)
+| CTOr (a b : ctext)
+| CTNot (a : ctext).
+
+Definition FPPOOL_text : list (string * string * ctext) :=
+  [ (* 0 *) ("(add ?a ?b)", "(add ?b ?a)", CTNone);
+    (* 1 *) ("(mul ?a ?b)", "(mul ?b ?a)", CTNone);
+    (* 2 *) ("(add (add ?a ?b) ?c)", "(add ?a (add ?b ?c))", CTNone);
+    (* 3 *) ("(mul (mul ?a ?b) ?c)", "(mul ?a (mul ?b ?c))", CTNone);
+    (* 4 *) ("(mul ?a (add ?b ?c))", "(add (mul ?a ?b) (mul ?a ?c))", CTNone);
+    (* 5 *) ("(add ?a 0)", "?a", CTNone);
+    (* 6 *) ("(mul ?a 1)", "?a", CTNone);
+    (* 7 *) ("(mul ?a 0)", "0", CTNone);
+    (* 8 *) ("(sum $1 (add ?a ?b))", "(add (sum $1 ?a) (sum $1 ?b))", CTNone);
+    (* 9 *) ("(sum $1 (mul ?a ?b))", "(mul ?a (sum $1 ?b))", CTFree "1" "a");
+    (* 10 *) ("(sum $1 (sum $2 ?a))", "(sum $2 (sum $1 ?a))", CTNone);
+    (* 11 *) ("(let $1 ?b ?t)", "?b[(var $1) := ?t]", CTNone);
+    (* 12 *) ("(sum $1 ?a)", "(sum $2 (let $1 ?a (var $2)))", CTNone);
+    (* 13 *) ("(let $1 (var $1) ?t)", "?t", CTNone);
+    (* 14 *) ("(let $1 ?b ?t)", "?b", CTFree "1" "b");
+    (* 15 *) ("(sum $1 ?a)", "0", CTFree "1" "a");
+    (* 16 *) ("(add (mul ?a ?b) (mul ?a ?c))", "(mul ?a (add ?b ?c))", CTNone);
+    (* 17 *) ("(let $1 (add ?a ?b) ?t)", "(add (let $1 ?a ?t) (let $1 ?b ?t))", CTNone);
+    (* 18 *) ("(let $1 ?b ?t)", "(let $2 (let $1 ?b (var $2)) ?t)", CTNone);
+    (* 19 *) ("(let $1 (mul ?a ?b) ?t)", "(mul (let $1 ?a ?t) (let $1 ?b ?t))", CTNone);
+    (* 20 *) ("(let $1 (sum $2 ?b) ?t)", "(sum $2 (let $1 ?b ?t))", CTFree "2" "t");
+    (* 21 *) ("(add ?a ?a)", "(mul 2 ?a)", CTNone);
+    (* 22 *) ("(mul ?a (sum $1 ?b))", "(sum $1 (mul ?a ?b))", CTFree "1" "a");
+    (* 23 *) ("(let $1 ?b (let $2 ?c ?t))", "(let $2 (let $1 ?b ?c) ?t)", CTFree "2" "b");
+    (* rules guarded by condition combinators *)
+    (* 24 *) ("(sum $1 (mul ?a ?b))", "(mul (mul ?a ?b) (sum $1 1))", CTAnd (CTFree "1" "a") (CTFree "1" "b"));
+    (* 25 *) ("(let $1 (add ?a ?b) ?t)", "(add ?a ?b)", CTAnd (CTFree "1" "a") (CTFree "1" "b"));
+    (* 26 *) ("(let $1 (mul ?a ?b) ?t)", "(mul ?a ?b)", CTNot (CTOr (CTNot (CTFree "1" "a")) (CTNot (CTFree "1" "b"))));
+    (* 27 *) ("(sum $1 (mul ?a ?b))", "(mul ?a (sum $1 ?b))", CTAnd (CTFree "1" "a") (CTNot (CTFree "1" "b")));
+    (* 28 *) ("(sum $1 (sum $2 ?a))", "0", CTOr (CTFree "1" "a") (CTFree "2" "a"));
+    (* 29 *) ("(sum $1 (sum $2 (mul ?a ?b)))", "(mul (sum $1 ?a) (sum $2 ?b))", CTAnd (CTFree "2" "a") (CTFree "1" "b"));
+    (* 30 *) ("(mul (sum $1 ?a) (sum $2 ?b))", "0", CTOr (CTFree "1" "a") (CTFree "2" "b"));
+    (* 31 *) ("(let $1 (let $2 ?b ?c) ?t)", "(let $2 ?b ?c)", CTAnd (CTFree "1" "b") (CTFree "1" "c"));
+    (* 32 *) ("(let $1 (add ?a (mul ?b ?c)) ?t)", "(add ?a (mul ?b ?c))",
+              CTAnd (CTFree "1" "a") (CTAnd (CTFree "1" "b") (CTFree "1" "c")));
+    (* 33 *) ("(sum $1 (sum $2 (mul ?a ?b)))", "0",
+              CTOr (CTAnd (CTFree "1" "a") (CTFree "1" "b")) (CTAnd (CTFree "2" "a") (CTFree "2" "b"))) ]%string.
 
 (* ... and patterns.  $1 is the slot 4, $2 the slot 8 (Slots/Slot.v: numeric n = 4n). *)
 Definition s1 : slot := 4.
@@ -158,33 +203,47 @@ Definition va := FPV (T "a").
 Definition vb := FPV (T "b").
 Definition vc := FPV (T "c").
 Definition vt := FPV (T "t").
-Definition mk (l r : fpat) (c : option (slot * text)) : frule := {| fr_lhs := l; fr_rhs := r; fr_cond := c |}.
+Definition mk (l r : fpat) (c : fcond) : frule := {| fr_lhs := l; fr_rhs := r; fr_cond := c |}.
+
+Definition fr1 (v : string) : fcond := FCFree s1 (T v).
+Definition fr2 (v : string) : fcond := FCFree s2 (T v).
 
 Definition FPPOOL : list frule :=
-  [ (* 0 *) mk (FAdd va vb) (FAdd vb va) None;
-    (* 1 *) mk (FMul va vb) (FMul vb va) None;
-    (* 2 *) mk (FAdd (FAdd va vb) vc) (FAdd va (FAdd vb vc)) None;
-    (* 3 *) mk (FMul (FMul va vb) vc) (FMul va (FMul vb vc)) None;
-    (* 4 *) mk (FMul va (FAdd vb vc)) (FAdd (FMul va vb) (FMul va vc)) None;
-    (* 5 *) mk (FAdd va (FNum 0)) va None;
-    (* 6 *) mk (FMul va (FNum 1)) va None;
-    (* 7 *) mk (FMul va (FNum 0)) (FNum 0) None;
-    (* 8 *) mk (FSum s1 (FAdd va vb)) (FAdd (FSum s1 va) (FSum s1 vb)) None;
-    (* 9 *) mk (FSum s1 (FMul va vb)) (FMul va (FSum s1 vb)) (Some (s1, T "a"));
-    (* 10 *) mk (FSum s1 (FSum s2 va)) (FSum s2 (FSum s1 va)) None;
-    (* 11 *) mk (FLet s1 vb vt) (FSub vb s1 vt) None;
-    (* 12 *) mk (FSum s1 va) (FSum s2 (FLet s1 va (FVar s2))) None;
-    (* 13 *) mk (FLet s1 (FVar s1) vt) vt None;
-    (* 14 *) mk (FLet s1 vb vt) vb (Some (s1, T "b"));
-    (* 15 *) mk (FSum s1 va) (FNum 0) (Some (s1, T "a"));
-    (* 16 *) mk (FAdd (FMul va vb) (FMul va vc)) (FMul va (FAdd vb vc)) None;
-    (* 17 *) mk (FLet s1 (FAdd va vb) vt) (FAdd (FLet s1 va vt) (FLet s1 vb vt)) None;
-    (* 18 *) mk (FLet s1 vb vt) (FLet s2 (FLet s1 vb (FVar s2)) vt) None;
-    (* 19 *) mk (FLet s1 (FMul va vb) vt) (FMul (FLet s1 va vt) (FLet s1 vb vt)) None;
-    (* 20 *) mk (FLet s1 (FSum s2 vb) vt) (FSum s2 (FLet s1 vb vt)) (Some (s2, T "t"));
-    (* 21 *) mk (FAdd va va) (FMul (FNum 2) va) None;
-    (* 22 *) mk (FMul va (FSum s1 vb)) (FSum s1 (FMul va vb)) (Some (s1, T "a"));
-    (* 23 *) mk (FLet s1 vb (FLet s2 vc vt)) (FLet s2 (FLet s1 vb vc) vt) (Some (s2, T "b")) ].
+  [ (* 0 *) mk (FAdd va vb) (FAdd vb va) FCTrue;
+    (* 1 *) mk (FMul va vb) (FMul vb va) FCTrue;
+    (* 2 *) mk (FAdd (FAdd va vb) vc) (FAdd va (FAdd vb vc)) FCTrue;
+    (* 3 *) mk (FMul (FMul va vb) vc) (FMul va (FMul vb vc)) FCTrue;
+    (* 4 *) mk (FMul va (FAdd vb vc)) (FAdd (FMul va vb) (FMul va vc)) FCTrue;
+    (* 5 *) mk (FAdd va (FNum 0)) va FCTrue;
+    (* 6 *) mk (FMul va (FNum 1)) va FCTrue;
+    (* 7 *) mk (FMul va (FNum 0)) (FNum 0) FCTrue;
+    (* 8 *) mk (FSum s1 (FAdd va vb)) (FAdd (FSum s1 va) (FSum s1 vb)) FCTrue;
+    (* 9 *) mk (FSum s1 (FMul va vb)) (FMul va (FSum s1 vb)) (FCFree s1 (T "a"));
+    (* 10 *) mk (FSum s1 (FSum s2 va)) (FSum s2 (FSum s1 va)) FCTrue;
+    (* 11 *) mk (FLet s1 vb vt) (FSub vb s1 vt) FCTrue;
+    (* 12 *) mk (FSum s1 va) (FSum s2 (FLet s1 va (FVar s2))) FCTrue;
+    (* 13 *) mk (FLet s1 (FVar s1) vt) vt FCTrue;
+    (* 14 *) mk (FLet s1 vb vt) vb (FCFree s1 (T "b"));
+    (* 15 *) mk (FSum s1 va) (FNum 0) (FCFree s1 (T "a"));
+    (* 16 *) mk (FAdd (FMul va vb) (FMul va vc)) (FMul va (FAdd vb vc)) FCTrue;
+    (* 17 *) mk (FLet s1 (FAdd va vb) vt) (FAdd (FLet s1 va vt) (FLet s1 vb vt)) FCTrue;
+    (* 18 *) mk (FLet s1 vb vt) (FLet s2 (FLet s1 vb (FVar s2)) vt) FCTrue;
+    (* 19 *) mk (FLet s1 (FMul va vb) vt) (FMul (FLet s1 va vt) (FLet s1 vb vt)) FCTrue;
+    (* 20 *) mk (FLet s1 (FSum s2 vb) vt) (FSum s2 (FLet s1 vb vt)) (FCFree s2 (T "t"));
+    (* 21 *) mk (FAdd va va) (FMul (FNum 2) va) FCTrue;
+    (* 22 *) mk (FMul va (FSum s1 vb)) (FSum s1 (FMul va vb)) (FCFree s1 (T "a"));
+    (* 23 *) mk (FLet s1 vb (FLet s2 vc vt)) (FLet s2 (FLet s1 vb vc) vt) (FCFree s2 (T "b"));
+    (* 24 *) mk (FSum s1 (FMul va vb)) (FMul (FMul va vb) (FSum s1 (FNum 1))) (FCAnd (fr1 "a") (fr1 "b"));
+    (* 25 *) mk (FLet s1 (FAdd va vb) vt) (FAdd va vb) (FCAnd (fr1 "a") (fr1 "b"));
+    (* 26 *) mk (FLet s1 (FMul va vb) vt) (FMul va vb) (FCNot (FCOr (FCNot (fr1 "a")) (FCNot (fr1 "b"))));
+    (* 27 *) mk (FSum s1 (FMul va vb)) (FMul va (FSum s1 vb)) (FCAnd (fr1 "a") (FCNot (fr1 "b")));
+    (* 28 *) mk (FSum s1 (FSum s2 va)) (FNum 0) (FCOr (fr1 "a") (fr2 "a"));
+    (* 29 *) mk (FSum s1 (FSum s2 (FMul va vb))) (FMul (FSum s1 va) (FSum s2 vb)) (FCAnd (fr2 "a") (fr1 "b"));
+    (* 30 *) mk (FMul (FSum s1 va) (FSum s2 vb)) (FNum 0) (FCOr (fr1 "a") (fr2 "b"));
+    (* 31 *) mk (FLet s1 (FLet s2 vb vc) vt) (FLet s2 vb vc) (FCAnd (fr1 "b") (fr1 "c"));
+    (* 32 *) mk (FLet s1 (FAdd va (FMul vb vc)) vt) (FAdd va (FMul vb vc)) (FCAnd (fr1 "a") (FCAnd (fr1 "b") (fr1 "c")));
+    (* 33 *) mk (FSum s1 (FSum s2 (FMul va vb))) (FNum 0)
+                (FCOr (FCAnd (fr1 "a") (fr1 "b")) (FCAnd (fr2 "a") (fr2 "b"))) ].
 
 (* from the parser's patterns (Parse/Parser.v, the model of Pattern::parse) to fpat *)
 Fixpoint fpat_of_pattern (q : pattern) : option fpat :=
@@ -221,18 +280,39 @@ Fixpoint fpat_of_pattern (q : pattern) : option fpat :=
   | PNode _ _ => None
   end.
 
-(* Rewrite::new_if(name, lhs, rhs, slot_free_in(slot, var)): the condition's slot is named first, then
-   the two patterns are parsed (the repaired parser of /repo: legacy = false) *)
-Definition parse_frule (r : string * string * option (string * string)) : option frule :=
+(* Rewrite::new_if(name, lhs, rhs, cond): the condition is built first, its slot_free_in leaves name their
+   slots (Slot::named) from left to right (and(x, y): x is built before y); then the two patterns are parsed
+   (the repaired parser of /repo: legacy = false) *)
+Fixpoint parse_cond (st : table) (c : ctext) : option (fcond * table) :=
+  match c with
+  | CTNone => Some (FCTrue, st)
+  | CTFree s v => match named false false st (T s) with
+                  | Ok (x, st') => Some (FCFree x (T v), st')
+                  | Err _ => None
+                  end
+  | CTAnd a b => match parse_cond st a with
+                 | Some (a', st1) => match parse_cond st1 b with
+                                     | Some (b', st2) => Some (FCAnd a' b', st2)
+                                     | None => None
+                                     end
+                 | None => None
+                 end
+  | CTOr a b => match parse_cond st a with
+                | Some (a', st1) => match parse_cond st1 b with
+                                    | Some (b', st2) => Some (FCOr a' b', st2)
+                                    | None => None
+                                    end
+                | None => None
+                end
+  | CTNot a => match parse_cond st a with
+               | Some (a', st1) => Some (FCNot a', st1)
+               | None => None
+               end
+  end.
+
+Definition parse_frule (r : string * string * ctext) : option frule :=
   let '(l, rh, c) := r in
-  let cond := match c with
-              | None => Some (None, init_table)
-              | Some (s, v) => match named false false init_table (T s) with
-                               | Ok (x, st) => Some (Some (x, T v), st)
-                               | Err _ => None
-                               end
-              end in
-  match cond with
+  match parse_cond init_table c with
   | None => None
   | Some (c', st0) =>
       match parse_pattern_text false false false sigLV st0 (T l) with
@@ -365,12 +445,20 @@ Definition rho_of (p : N) (sigma : text -> fterm) : valuation := fun v env => fe
 Definition fresh_slots (r : frule) : list slot :=
   filter (fun x => negb (existsb (N.eqb x) (pslots (fr_lhs r)))) (pslots (fr_rhs r)).
 
+(* the condition as the implementation evaluates it: slot_free_in(x, v) is "x is not a slot of what ?v
+   matched", and / or / not are the Boolean connectives *)
+Fixpoint cond_eval (sigma : text -> fterm) (c : fcond) : bool :=
+  match c with
+  | FCTrue => true
+  | FCFree x v => negb (existsb (N.eqb x) (free_slots (sigma v)))
+  | FCAnd a b => cond_eval sigma a && cond_eval sigma b
+  | FCOr a b => cond_eval sigma a || cond_eval sigma b
+  | FCNot a => negb (cond_eval sigma a)
+  end.
+
 Definition match_ok (r : frule) (sigma : text -> fterm) : bool :=
   forallb (fun v => disjoint (fresh_slots r) (free_slots (sigma v))) (pvars (fr_lhs r) ++ pvars (fr_rhs r)) &&
-  match fr_cond r with
-  | None => true
-  | Some (x, v) => negb (existsb (N.eqb x) (free_slots (sigma v)))
-  end &&
+  cond_eval sigma (fr_cond r) &&
   inst_safe sigma (fr_lhs r) && inst_safe sigma (fr_rhs r).
 
 (* the equation (between canonical terms) a rule instance asserts *)
